@@ -264,6 +264,34 @@ def run(rep, pdb, tier):
                     if len(atoms) == 1 and atoms[0][0] == "cmp" and atoms[0][1] == "!=" and canon_atom(atoms[0]) == canon_atom(norm_cmp("!=", N, SIZE(P(1)))):
                         okp = True     # the entry size guard
                     if not okp:
+                        # a consistency check of the receiver's own diagonal lengths that the struct invariant (len(main) = n,
+                        # len(sub) = len(sup) = n - 1, established by every constructor: bounds/*) refutes can never fire
+                        from .common import subst_term
+                        from .terms import lin_sub as _ls
+                        alts = cond_atoms(ctx, n_["cond"], True)
+                        flat = []
+                        def _fl(xs):
+                            for at in xs:
+                                if isinstance(at, (list,)):
+                                    yield from _fl(at)
+                                elif at[0] in ("or", "and"):
+                                    yield from _fl(at[1])
+                                else:
+                                    yield at
+                        flat = list(_fl(alts))
+                        for at in []:
+                            pass
+                        dead = bool(flat)
+                        for at in flat:
+                            if at[0] != "cmp" or at[1] not in ("!=", "<", ">"):
+                                dead = False
+                                break
+                            d_ = _ls(subst_term(at[2], INVARIANT), subst_term(at[3], INVARIANT))
+                            if not (d_[0] == "num" and d_[1] == 0):
+                                dead = False
+                                break
+                        okp = dead
+                    if not okp:
                         bad.append("panic at %s is not a zero test of the pivot" % loc(n_))
             rep.add("refuse/only-zero-pivot", "solve refuses only for a mismatched size or when the pivot value itself is zero (a zero diagonal entry alone is not a zero pivot)",
                     not bad and n_p >= 3, sv["body"], "panic guards=%d %s" % (n_p, bad), where=loc(sv["body"]))
@@ -347,7 +375,8 @@ def run(rep, pdb, tier):
     n_ops = 0
     for fn in pdb.local_fns():
         tr = fn.get("impl_trait")
-        if fn["file"] != "src/tridiagonal.rs" or tr not in OP_OF_TRAIT:
+        from .common import involves_adt
+        if not (fn["file"] == "src/tridiagonal.rs" or involves_adt(fn, "tridiagonal::Tridiagonal")) or tr not in OP_OF_TRAIT:
             continue
         args = fn.get("impl_trait_args", [])
         rhs = args[1] if len(args) > 1 else None
